@@ -28,3 +28,11 @@ M += [
  ('c01-natural', 'C01', 'teneva/act_one.py', "                phi[k] /= Y[k].shape[1]", "                phi[k] /= Y[k].shape[0] if ltr else Y[k].shape[1]", 'natural norm under ltr'),
  ('c01-outer-alias', 'C01', 'teneva/act_two.py', "    Y = teneva.copy(Y1)\n    Y.extend(teneva.copy(Y2))\n    return Y", "    Y = teneva.copy(Y1)\n    Y.extend(teneva.copy(Y2)[::-1] if len(Y2) == 2 and Y2[0].shape[1] == Y2[1].shape[1] else teneva.copy(Y2))\n    return Y", 'outer reverses a symmetric-shaped 2-core factor'),
 ]
+
+M += [
+ ('c04-right-start', 'C04', 'teneva/transformation.py', "    for i in range(d-1, k, -1):\n        orthogonalize_right(Z, i, inplace=True)", "    for i in range(d-2 if d > 3 else d-1, k, -1):\n        orthogonalize_right(Z, i, inplace=True)", 'right sweep skips the last core for d>3'),
+ ('c04-stab-sign', 'C04', 'teneva/core.py', "    return Q, p0 + p", "    return Q, p0 - p if p < -40 else p0 + p", 'core_stab exponent sign for tiny cores'),
+ ('c04-inplace-copy', 'C04', 'teneva/transformation.py', "    Z = Y if inplace else teneva.copy(Y)\n\n    r2, n2, r3 = Z[i].shape", "    Z = Y if inplace or i == 1 else teneva.copy(Y)\n\n    r2, n2, r3 = Z[i].shape", 'orthogonalize_right(i=1) forgets the copy'),
+ ('c04-floor', 'C04', 'teneva/core.py', "    p = int(np.floor(np.log2(v_max)))", "    p = int(np.ceil(np.log2(v_max)))", 'core_stab ceil'),
+ ('c04-rq-order', 'C04', 'teneva/transformation.py', "    G1 = G1 @ R\n    Z[i-1] = teneva._reshape(G1, (r1, n1, G1.shape[1]))", "    G1 = G1 @ (R if R.shape[0] == R.shape[1] or True else R)\n    Z[i-1] = teneva._reshape(G1, (r1, n1, G1.shape[1]), order='F' if r1 == 1 or n1 == 1 else 'C')", 'reshape order on the neighbour core'),
+]
